@@ -25,18 +25,29 @@ pub const GHOST_CAP: usize = 96;
 pub const GHOST_FD: i32 = 3;
 pub const NO_LIMIT: usize = usize::MAX;
 
-static mut BYTES: [u8; GHOST_CAP] = [0xA5; GHOST_CAP];
-static mut CURSOR: usize = 0;
-static mut HIGH: usize = 0;
-static mut OPENS: usize = 0;
-static mut WRITE_CALLS: usize = 0;
-static mut FAILED_WRITES: usize = 0;
-static mut LIMIT: usize = NO_LIMIT;
-static mut BUDGET: usize = NO_LIMIT;
-static mut SHORT: bool = true;
-static mut CHOP: usize = NO_LIMIT;
-static mut OPEN_FAIL: bool = false;
-static mut STORE: bool = true;
+// All state lives in ONE static whose bytes are not all zero (`magic`): kani-compiler 0.68 can
+// alias a zero-initialised `static mut X: usize = 0` of the harness crate with rustc's interned
+// all-zero constant (RawVec's zero capacity then changes when the static is written -- seen here
+// as a spurious __rust_dealloc alarm for an empty Vec).
+struct Ghost {
+    magic: u64,
+    bytes: [u8; GHOST_CAP],
+    cursor: usize,
+    high: usize,
+    opens: usize,
+    write_calls: usize,
+    failed_writes: usize,
+    limit: usize,
+    budget: usize,
+    chop: usize,
+    short: bool,
+    open_fail: bool,
+    store: bool,
+}
+static mut G: Ghost = Ghost {
+    magic: 0x5EED_F11E_C0DE_0001, bytes: [0xA5; GHOST_CAP], cursor: 0, high: 0, opens: 0, write_calls: 0, failed_writes: 0,
+    limit: NO_LIMIT, budget: NO_LIMIT, chop: NO_LIMIT, short: true, open_fail: false, store: true,
+};
 
 extern "C" {
     // models/close_model.c
@@ -47,24 +58,24 @@ extern "C" {
 
 pub fn reset() {
     unsafe {
-        CURSOR = 0; HIGH = 0; OPENS = 0; WRITE_CALLS = 0; FAILED_WRITES = 0;
-        LIMIT = NO_LIMIT; BUDGET = NO_LIMIT; SHORT = true; CHOP = NO_LIMIT; OPEN_FAIL = false; STORE = true;
+        G.cursor = 0; G.high = 0; G.opens = 0; G.write_calls = 0; G.failed_writes = 0;
+        G.limit = NO_LIMIT; G.budget = NO_LIMIT; G.short = true; G.chop = NO_LIMIT; G.open_fail = false; G.store = true;
         kv_close_reset();
     }
 }
-pub fn set_limit(l: usize) { unsafe { LIMIT = l; } }
-pub fn set_budget(b: usize, short: bool) { unsafe { BUDGET = b; SHORT = short; } }
-pub fn set_chop(c: usize) { unsafe { CHOP = c; } }
-pub fn set_open_fail(f: bool) { unsafe { OPEN_FAIL = f; } }
+pub fn set_limit(l: usize) { unsafe { G.limit = l; } }
+pub fn set_budget(b: usize, short: bool) { unsafe { G.budget = b; G.short = short; } }
+pub fn set_chop(c: usize) { unsafe { G.chop = c; } }
+pub fn set_open_fail(f: bool) { unsafe { G.open_fail = f; } }
 /// Offsets and length only: the content is not kept (templates that never look at it, with
 /// symbolic faults: byte stores at symbolic offsets are what makes those instances expensive).
-pub fn set_store(f: bool) { unsafe { STORE = f; } }
+pub fn set_store(f: bool) { unsafe { G.store = f; } }
 
-pub fn len() -> usize { unsafe { HIGH } }
-pub fn byte(i: usize) -> u8 { unsafe { assert!(STORE, "ghost file: content was not kept"); BYTES[i] } }
-pub fn opens() -> usize { unsafe { OPENS } }
-pub fn write_calls() -> usize { unsafe { WRITE_CALLS } }
-pub fn failed_writes() -> usize { unsafe { FAILED_WRITES } }
+pub fn len() -> usize { unsafe { G.high } }
+pub fn byte(i: usize) -> u8 { unsafe { assert!(G.store, "ghost file: content was not kept"); G.bytes[i] } }
+pub fn opens() -> usize { unsafe { G.opens } }
+pub fn write_calls() -> usize { unsafe { G.write_calls } }
+pub fn failed_writes() -> usize { unsafe { G.failed_writes } }
 pub fn closes() -> usize { unsafe { kv_close_count() as usize } }
 pub fn last_closed_fd() -> i32 { unsafe { kv_close_last_fd() } }
 
@@ -76,19 +87,19 @@ pub fn last_closed_fd() -> i32 { unsafe { kv_close_last_fd() } }
 /// through an unresolved indirect call (measured: out of memory). The writers under test never
 /// look at the error value, they only propagate it (`?`) or unwrap it.
 fn fail() -> io::Result<usize> {
-    unsafe { FAILED_WRITES += 1; }
+    unsafe { G.failed_writes += 1; }
     Ok(0)
 }
 
 /// `std::fs::OpenOptions::open`
 pub fn ghost_open<P: AsRef<Path>>(_opts: &OpenOptions, _path: P) -> io::Result<File> {
     unsafe {
-        if OPEN_FAIL {
+        if G.open_fail {
             return Err(io::Error::from(io::ErrorKind::PermissionDenied));
         }
-        OPENS += 1;
-        CURSOR = 0;
-        HIGH = 0;
+        G.opens += 1;
+        G.cursor = 0;
+        G.high = 0;
         Ok(File::from_raw_fd(GHOST_FD))
     }
 }
@@ -96,34 +107,34 @@ pub fn ghost_open<P: AsRef<Path>>(_opts: &OpenOptions, _path: P) -> io::Result<F
 /// `<std::fs::File as std::io::Write>::write`
 pub fn ghost_write(_f: &mut File, buf: &[u8]) -> io::Result<usize> {
     unsafe {
-        WRITE_CALLS += 1;
+        G.write_calls += 1;
         let n = buf.len();
         if n == 0 {
             return Ok(0);
         }
         let mut k = n;
-        if k > CHOP { k = CHOP; }
-        if LIMIT != NO_LIMIT {
-            if CURSOR >= LIMIT { return fail(); }
-            if k > LIMIT - CURSOR { k = LIMIT - CURSOR; }
+        if k > G.chop { k = G.chop; }
+        if G.limit != NO_LIMIT {
+            if G.cursor >= G.limit { return fail(); }
+            if k > G.limit - G.cursor { k = G.limit - G.cursor; }
         }
-        if BUDGET != NO_LIMIT {
-            if BUDGET == 0 { return fail(); }
-            if k > BUDGET {
-                if SHORT { k = BUDGET; } else { BUDGET = 0; return fail(); }
+        if G.budget != NO_LIMIT {
+            if G.budget == 0 { return fail(); }
+            if k > G.budget {
+                if G.short { k = G.budget; } else { G.budget = 0; return fail(); }
             }
-            BUDGET -= k;
+            G.budget -= k;
         }
-        assert!(CURSOR <= GHOST_CAP && k <= GHOST_CAP - CURSOR, "ghost file: fixed capacity exceeded");
-        if STORE {
+        assert!(G.cursor <= GHOST_CAP && k <= GHOST_CAP - G.cursor, "ghost file: fixed capacity exceeded");
+        if G.store {
             // a write that starts beyond the end leaves a zero-filled gap
-            let mut g = HIGH;
-            while g < CURSOR { BYTES[g] = 0; g += 1; }
+            let mut g = G.high;
+            while g < G.cursor { G.bytes[g] = 0; g += 1; }
             let mut i = 0;
-            while i < n { if i < k { BYTES[CURSOR + i] = buf[i]; } i += 1; }
+            while i < n { if i < k { G.bytes[G.cursor + i] = buf[i]; } i += 1; }
         }
-        CURSOR += k;
-        if CURSOR > HIGH { HIGH = CURSOR; }
+        G.cursor += k;
+        if G.cursor > G.high { G.high = G.cursor; }
         Ok(k)
     }
 }
@@ -133,12 +144,12 @@ pub fn ghost_seek(_f: &mut File, pos: SeekFrom) -> io::Result<u64> {
     unsafe {
         let (base, delta): (u64, i64) = match pos {
             SeekFrom::Start(n) => (n, 0),
-            SeekFrom::Current(d) => (CURSOR as u64, d),
-            SeekFrom::End(d) => (HIGH as u64, d),
+            SeekFrom::Current(d) => (G.cursor as u64, d),
+            SeekFrom::End(d) => (G.high as u64, d),
         };
         let target = if delta >= 0 { base.checked_add(delta as u64) } else { base.checked_sub(delta.unsigned_abs()) };
         match target {
-            Some(t) if t <= i64::MAX as u64 => { CURSOR = t as usize; Ok(t) }
+            Some(t) if t <= i64::MAX as u64 => { G.cursor = t as usize; Ok(t) }
             _ => Err(io::Error::from(io::ErrorKind::InvalidInput)),
         }
     }
